@@ -20,12 +20,15 @@ AGREE = {
     'C02': ['Isotp.Agree.NearestFd', 'Isotp.Agree.PadLen'],
     'C05': ['Isotp.Agree.Pci'],
     'C08': ['Isotp.Agree.Stmin'],
+    'C19': ['Isotp.Agree.SockConsts'],
+    'C20': ['Isotp.Agree.SockConsts'],
 }
 AGREE_THEOREMS = {
     'Isotp.Agree.NearestFd': ['Isotp.Agree.nearestFd_agree', 'Isotp.Agree.dlc8_agree', 'Isotp.Agree.dlcFd_agree'],
     'Isotp.Agree.PadLen': ['Isotp.Agree.padLen_agree', 'Isotp.Agree.padByte_agree'],
     'Isotp.Agree.Pci': ['Isotp.Agree.pciKind_agree', 'Isotp.Agree.pciVal_agree'],
     'Isotp.Agree.Stmin': ['Isotp.Agree.stmin_agree'],
+    'Isotp.Agree.SockConsts': ['Isotp.Agree.sockConsts_agree', 'Isotp.Agree.sockImage_agree'],
 }
 
 
